@@ -167,7 +167,10 @@ Lay(ch, k, sp, words, fr, fill) ==        \* words: function address -> value (p
               \* linux: rbp = rec = sp + 8*pad.  windows: rbp = sp points 16*pad bytes below the record (into the locals)
               LET rec == IF Os = "windows" THEN sp + 16 * c.pad ELSE sp + Ptr * c.pad
                   csp == rec + 16
-                  cbp == IF nextNeedsFp THEN (IF Os = "windows" THEN csp ELSE csp + Ptr * ch[k+1].pad) ELSE csp      \* a readable, sane value >= csp
+                  \* the caller's own rbp: where its record is when it is found by its frame pointer; otherwise a readable, sane value from which
+                  \* the frame-pointer technique finds nothing (the last two words of the stack, which are zero): on Windows a value inside
+                  \* the frames would let the 240-byte search latch onto a later record
+                  cbp == IF nextNeedsFp THEN (IF Os = "windows" THEN csp ELSE csp + Ptr * ch[k+1].pad) ELSE StackEnd - 16
                   filler == IF fill /\ Os = "windows" THEN UNION {{<<sp + 16 * j, rec>>, <<sp + 16 * j + 8, 1073741824>>} : j \in 0..(c.pad - 1)} ELSE {}
               IN Lay(ch, k + 1, csp, words \cup filler \cup {<<rec, cbp>>, <<rec + 8, nextIp>>}, Append(fr, [ip |-> nextIp, sp |-> csp, trust |-> "frame_pointer", bp |-> rec]), fill)
          [] c.tech \in {"cfi", "cfiend"} ->
